@@ -296,16 +296,26 @@ def obj_len_choices(f):
     return (0, 1, 2, 3)
 
 
-def _members(irty):
-    """(offset, type) of the non-padding elements of an IR struct type"""
+def _const_fn(ex, name):
+    r = ex.run(name, [], L.State())
+    v = z3.simplify(r[0][1].e)
+    if len(r) != 1 or not z3.is_bv_value(v):
+        raise L.Unsupported('not a constant function: ' + name)
+    return v.as_long()
+
+
+def _members(ex, irty, tname, names):
+    """(offset, IR type) of the named C++ members: offsets come from the compiled offsetof() functions, the IR element
+    is the one the struct layout places at that offset"""
     t = L.res(irty)
     offs = L.struct_layout(t)[0]
     out = []
-    for i, e in enumerate(t.elems):
-        r = L.res(e) if not isinstance(e, L.NamedTy) else None
-        if isinstance(e, L.ArrTy) and isinstance(L.res(e.el), L.IntTy) and L.res(e.el).bits == 8:
-            continue                                          # explicit padding of a packed layout
-        out.append((offs[i], e))
+    for m in names:
+        off = _const_fn(ex, '@off_%s__%s' % (tname, m))
+        cand = [e for o, e in zip(offs, t.elems) if o == off and L.size_of(e) > 0]
+        if not cand:
+            raise L.Unsupported('no IR element at offset %d of %s (member %s)' % (off, tname, m))
+        out.append((off, cand[0]))
     return out
 
 
@@ -339,7 +349,7 @@ def havoc(ex, st, irty, ast_t, addr, src, build=True):
         return
     if isinstance(ast_t, W.Union):
         d = src.choice(len(ast_t.arms))
-        mem = _members(irty) if build else None
+        mem = _members(ex, irty, ast_t.name, ['discriminator'] + [a[1] for a in ast_t.arms]) if build else None
         if build:
             if len(mem) != len(ast_t.arms) + 1:
                 raise L.Unsupported('union layout does not match the schema: %r' % ast_t)
@@ -353,7 +363,7 @@ def havoc(ex, st, irty, ast_t, addr, src, build=True):
         return
     sizers = W.sizer_names(ast_t)
     fields = [f for f in ast_t.fields if f.name not in sizers]
-    mem = _members(irty) if build else [(0, None)] * len(fields)
+    mem = _members(ex, irty, ast_t.name, [f.name for f in fields]) if build else [(0, None)] * len(fields)
     if len(mem) != len(fields):
         raise L.Unsupported('struct layout does not match the schema: %r has %d IR members, %d fields' % (ast_t, len(mem), len(fields)))
     ext_len = {}
